@@ -180,8 +180,11 @@ Fixpoint cap (ms : list msg) (limit : N) (acc : list msg) (size : N) : list msg 
   | m :: r =>
     if negb (len acc <? limit) then rev acc
     else
-      let size' := size + len (m_payload m) + len (m_id m) + len (m_chan m) in
-      if maxMessageSize <? size' then rev acc else cap r limit (m :: acc) size'
+      let own := len (m_payload m) + len (m_id m) + len (m_chan m) in
+      if maxMessageSize <? own then cap r limit acc size     (* larger than any answer: left out, hides nothing *)
+      else
+        let size' := size + own in
+        if maxMessageSize <? size' then rev acc else cap r limit (m :: acc) size'
   end.
 
 Definition esorted (es : list entry) : Prop := ksorted (map key es).
@@ -214,7 +217,8 @@ Proof.
   - destruct (len acc <? limit) eqn:Lm; cbn [negb].
     + destruct (id_match (key e) (q0 :: q1 :: qr) from until) eqn:M; cbn [negb map cap].
       * rewrite Lm. cbn [negb]. change (m_id (e_msg e)) with (key e).
-        destruct (maxMessageSize <? size + len (m_payload (e_msg e)) + len (key e) + len (m_chan (e_msg e))); [reflexivity|].
+        destruct (maxMessageSize <? len (m_payload (e_msg e)) + len (key e) + len (m_chan (e_msg e))); [apply IH; assumption|].
+        destruct (maxMessageSize <? size + (len (m_payload (e_msg e)) + len (key e) + len (m_chan (e_msg e)))); [reflexivity|].
         apply IH; assumption.
       * apply IH; assumption.
     + destruct (id_match (key e) (q0 :: q1 :: qr) from until); cbn [map cap].
